@@ -121,6 +121,15 @@ def r2(ctx, facts, model):
                 one = b.arg_origin(new[1], 1) if len(b.term(new[1])["args"]) > 1 else None
                 ok_new = bool(re.search(r"::(checked|wrapping|saturating|strict)_(add|sub)$", nc.get("path", ""))) and b.arg_origin(new[1], 0) == cur and \
                     one is not None and one[0] == "const" and one[1].split("_")[0].strip() in ("1", "const 1")
+            if not ok_new and new[0] == "call":
+                nt = b.term(new[1])
+                ncal = nt["callee"]
+                by_param = ("indirect_local" in ncal or "indirect" in ncal or
+                            (ncal.get("name") in ("call", "call_mut", "call_once") and (ncal.get("trait") or "").startswith("std::ops::Fn")))
+                if by_param and any(b.operand_origin(a) == cur or cur in b.deps(b.operand_origin(a)) for a in nt["args"]):
+                    # the step is a closure / fn the caller supplies and it is applied to the expected value: decided at the callers that are
+                    # RMW helpers themselves (where it is inlined); here only "new = step(current)" can be said
+                    ok_new = "undetermined"
             ctx.ob("C10-R2", key + ": new = current +/- 1 of the same current", ok_new, b.loc(bb),
                    "" if ok_new else "the value installed by the CAS is not computed from the expected value it compares against (new=%r, current=%r)" % (new, cur))
             # current: only from load(atom) or the Err payload
@@ -146,7 +155,7 @@ def r2(ctx, facts, model):
                    "" if okr else "the function returns something other than the Ok payload of the CAS (a stale read)")
     fu = sum(1 for b in facts.bodies for bb, t in b.calls() if t["callee"].get("name") == "fetch_update" and "atomic" in (t["callee"].get("path", "") + (t["callee"].get("self_ty") or "")))
     ctx.note("[%s] %d CAS sites, %d fetch_update sites (a fetch_update is a well-formed CAS loop by construction)" % (facts.config, n, fu))
-    ctx.floor("C10-R2", "checked RMW sites (CAS loops + fetch_update)", n + fu, 2)
+    ctx.floor("C10-R2", "checked RMW sites (CAS loops + fetch_update)", n + fu, 1)   # two loops today; one when both are instances of a shared parameterised helper
 
 
 def r3(ctx, facts, model):
